@@ -55,7 +55,7 @@ type MakeSocket struct {
 
 // Call the function with the arguments provided.
 func (f *MakeSocket) Call(s *slip.Scope, args slip.List, depth int) slip.Object {
-	slip.CheckArgCount(s, depth, f, args, 0, 6)
+	slip.CheckArgCount(s, depth, f, args, 0, 8)
 	self := socketFlavor.MakeInstance().(*flavors.Instance)
 	self.SetSynchronized(true)
 
